@@ -260,7 +260,7 @@ add("sep_dfcc", ["C09", "C02", "C01"], ["tu/sep_dfcc.c"], "h_sep_dfcc", mode="df
 # ---------------------------------------------------------------- C20 at module level: faults anywhere during add / close
 for h in ("add", "close"):
     add(f"wr_{h}_fault", ["C20", "C10", "C09"], ["tu/writer_step.c", "$REPO/mtbl/varint.c"], f"h_writer_{h}_fault", unwind=12, unwindset={"_write_all.0": 4}, defines=["VG_WRITE_FAULTS=1"], timeout=900,
-        strength=f"B: one mtbl_writer_{'add' if h == 'add' else 'destroy'} from an arbitrary writer state with one write(2) fault event (EINTR, short write accepting one byte, hard error) placed anywhere; key length <= 4",
+        strength=f"B: one mtbl_writer_{'add' if h == 'add' else 'destroy (no pending data block: index block + trailer writes)'} from an arbitrary writer state with one write(2) fault event (EINTR, short write accepting one byte, hard error) placed anywhere; key length <= 4",
         functions=WR_STEP_FUNCS + (["mtbl_writer_destroy", "_mtbl_writer_finish"] if h == "close" else []), assumptions=WR_STEP_ASSUME[:3] + ["POSIX write(2): -1 with an errno, or 1..count bytes accepted"], replay="c20")
 # ---------------------------------------------------------------- libmy/heap.c on its own (heaps larger than the merger harnesses reach)
 for op, nm, hn, tier in ((0, "push", 8, "quick"), (1, "pop", 8, "quick"), (2, "replace", 8, "quick"), (3, "heapify", 6, "quick"), (3, "heapify8", 8, "thorough"), (4, "misc", 8, "quick")):
@@ -314,3 +314,8 @@ add("wr_flush_dfcc", ["C09", "C10", "C01", "C12"], ["tu/writer_blk_dfcc.c", "$RE
     replace=["block_builder_empty/block_builder_empty__cap", "my_malloc/my_malloc__cap", "my_calloc/my_calloc__cap", "memcpy/memcpy__cap", "block_builder_finish/block_builder_finish__cap", "block_builder_reset/block_builder_reset__cap",
              "threadpool_dispatch/threadpool_dispatch__cap", "_mtbl_writer_compress_block/_mtbl_writer_compress_block__cap", "_mtbl_writer_write_data_block/_mtbl_writer_write_data_block__cap"],
     unwind=24, timeout=900, slice=1, strength="U", functions=["_mtbl_writer_flush"], assumptions=WB_ASSUME + ["thread pool dispatch is a capture contract (delivery itself: assumed contract of mtbl/threadpool.c, C13 not applicable)"])
+add("rd_getblock_dfcc", ["C12", "C11", "C01"], ["tu/reader_getblock_dfcc.c"], "h_get_block_dfcc", mode="dfcc", enforce="get_block/get_block__spec",
+    replace=["mtbl_fixed_decode32/mtbl_fixed_decode32__cap", "mtbl_varint_decode64/mtbl_varint_decode64__cap", "mtbl_crc32c/mtbl_crc32c__cap", "mtbl_decompress/mtbl_decompress__cap", "block_init/block_init__cap"],
+    unwind=16, timeout=900, slice=1, strength="U", functions=["get_block"],
+    assumptions=["decoders, checksum, decompression and block_init replaced by capture contracts (own checks: c16_*, C17, C15, blk_*); file size <= 2^40, any offset inside it, any length prefix",
+                 "a checksum mismatch / failed decompression stops at the function's own assert (permitted loud stop)"])
